@@ -21,8 +21,10 @@ exec 9>$V/build/.lock.$FLAV
 flock 9
 if [ -f $B/libabt.a ]; then touch $B/.used; echo $B; exit 0; fi
 # drop stale builds of the same flavour (not used for 3 hours)
-for d in $V/build/$FLAV-*; do
+for d in $V/build/$FLAV-????????????????; do
   [ -d "$d" ] || continue
+  case "$(basename $d)" in $FLAV-[0-9a-f]*) ;; *) continue;; esac
+  [ "${#d}" -eq "$(( ${#V} + 7 + ${#FLAV} + 17 ))" ] || continue
   if [ -z "$(find $d -maxdepth 1 -name .used -mmin -180 2>/dev/null)" ]; then rm -rf $d; fi
 done
 mkdir -p $B/obj $B/include
